@@ -14,7 +14,7 @@
    is an invariant over its states plus a comparison of its behaviour with the real interpreter.
 
    Program grammar (all records; `k` is the kind):
-     prog  = [funcs: Seq(func), classes: Seq(class), main: Seq(stmt), catches: Seq(catch)]
+     prog  = [funcs: Seq(func), classes: Seq(class), main: Seq(stmt), catches: Seq(catch), inputs: Seq(Str)]
      func  = [name, params: Seq(Str), body: Seq(stmt), catches: Seq(catch)]
      catch = [cls: Str, body: Seq(stmt)]
      class = [name, props: Seq([n, e]), ctor: Seq(func) (0/1), methods: Seq(func)]
@@ -141,7 +141,10 @@ Frame(kind, code, catches, this, sd0, site, act, owner) ==
 InitWith(P) ==
   /\ prog \in P
   /\ frames = << Frame("script", BodyCode(prog.main, <<0>>), Catches(prog.catches, <<0>>), VNull, 0, <<>>, 1, 0) >>
-  /\ syms = <<>> /\ depth = 1          \* the exec block's own scope is open
+  \* the exec block's own scope is open; the program's 输入 names are bound there as constants
+  \* (the harness passes the value j for the j-th input)
+  /\ syms = [j \in 1..Len(prog.inputs) |-> [name |-> prog.inputs[j], depth |-> 1, const |-> TRUE, val |-> VNum(j)]]
+  /\ depth = 1
   /\ heap = <<>> /\ out = <<>> /\ tr = <<>> /\ exc = NoExc /\ nact = 1
   /\ res = [k |-> "run"]
 
